@@ -21,6 +21,7 @@ KEY_HERE_SIE = "regression/putdata/GD_HERE/sie/position-is-last-sample-written"
 KEY_OOP_READ = "regression/getdata-after-putdata/out-of-place-encoding/old-file-open/read-restarts-empty-temporary"
 KEY_BZ2_EXTRA = "regression/putdata/bzip2/overwrite-then-write-past-end/extra-zero-samples-appended"
 KEY_SIE_STALE = "regression/putdata/sie/write-at-current-position-after-unflushed-append/stale-fstat-size-truncates"
+KEY_SIE_SEEKPUT = "putdata/sie/after-read-mode-seek-past-end/gap-filled-with-last-run-value"
 KEY_SIE_ZEROLEN = "regression/putdata/sie/overwrite-last-sample-of-one-sample-record-after-single-record-write/zero-length-record"
 
 
@@ -56,6 +57,14 @@ def gen_value(rng, t, kind):
     w = CSIZE[t]; bits = 8 * w; mask = (1 << bits) - 1
     if kind == "small":
         return tuple(small_to(t, rng.randint(0, 3)))
+    if kind == "partzero":
+        # samples that are zero in part of their bytes only: a zero component next to a non-zero one, -0.0, the smallest
+        # denormal, a lone top or bottom byte (whatever decides "is this sample zero" must look at all of it)
+        near = [0, 0, 1 << (bits - 1), 1, 0xff << (bits - 8), 0xff, 1 << (bits // 2)]
+        while True:
+            v = tuple(rng.choice(near) & mask for _ in range(NCOMP[t]))
+            if any(v):
+                return v
     if ISFLOAT[t]:
         pool = [0, f32(1) if w == 4 else f64(1), f32(-2.5) if w == 4 else f64(-2.5), 1, mask >> 1, 0x0102030405060708 & mask]
     else:
@@ -134,10 +143,14 @@ def gen_history(rng, t, enc, nops):
                             v = a[p + i + 1]
                         elif c < 0.85:
                             v = zero
-                        else:
+                        elif c < 0.93:
                             v = gen_value(rng, t, "small")
+                        else:
+                            v = gen_value(rng, t, "partzero")
+                        if i == n - 1 and rng.random() < 0.2:
+                            v = gen_value(rng, t, "partzero")      # the sample a later gap would follow
                     else:
-                        v = gen_value(rng, t, "any")
+                        v = gen_value(rng, t, "any" if rng.random() < 0.9 else "partzero")
                     cur = v
                     data.append(v)
             ops.append(("P", p, data, None, [x for v in data for x in v], here))
@@ -263,7 +276,8 @@ def main():
             cases.append({"dir": d, "t": t, "sex": sex, "enc": enc, "off": off, "spf": spf, "script": sc, "expect": expect,
                           "final": [x for v in a for x in v], "first": len(script), "codec": codec})
             script += sc
-            cods = [] if codec is None else [codec]
+            # SIE: the cursor machine as it is, and with the seek shortcut repaired (proposed_fixes/C03-6.diff)
+            cods = [] if codec is None else [codec] if codec != "sie" else ["sie", "siefx"]
             mlines.append(["%s %d %s %d - ; %s" % (cd, t, sex, max(1, 64 // TSIZE[t]), " ; ".join(ml)) for cd in cods])
     # one process per history, so that a crash (the SIE defects below can corrupt a file to the point
     # where the reader overruns its buffer) is attributed to the history that caused it
@@ -370,6 +384,11 @@ def main():
             mbad = "library reads %s / final %s ; model reads %s / final %s%s" % (
                 [gdlib.hexs(x)[:60] if x is not None else None for x in impl_gets][:4], payload.hex()[:120] if payload is not None else None,
                 [gdlib.hexs(x)[:60] for x in mg][:4], (mf or "")[:120], " (model write error)" if merr else "")
+        if (bad and enc == "sie" and agree == 0 and len(mo) == 2 and any(l.startswith("seek ") for l in c["script"])
+                and not mo[1][2] and mo[1][0] == spec_gets and gdlib.sie_decode(t, sex, bytes.fromhex(mo[1][1] or ""))[1] == c["final"]):
+            # the library does exactly what the model of the present _GD_SampIndSeek does, and the model with the
+            # "already there" shortcut repaired gives the flat array: the open finding
+            key = KEY_SIE_SEEKPUT
         if c["crashed"]:
             bad = "gdrun died: " + c["crash_info"]
             key = "crash/%s" % enc
@@ -422,6 +441,12 @@ def main():
     if not inc_ or exp_ != [1, 4]:
         chk.violation(KEY_SIE_ZEROLEN, "sie: put 1 2 at 0; put 3 at 1; put 4 at 1: a.sie record ends %s are not strictly increasing (expands to %s)" % ([e for e, _ in recs_], exp_),
                       {"kind": "impl-vs-spec", "script": r_, "final": pay_.hex()})
+    d_, r_, pay_, got_ = replay("w-seekput", "sie", "UINT8", ["put a 1 0 0 10 " + " ".join(["5"] * 10), "seek a 0 20 0", "put a 1 0 20 10 " + " ".join(["7"] * 10),
+                                                        "get a 1 0 0 40"], 4, None, None, None)
+    want_ = "get 30 0 " + " ".join(["5"] * 10 + ["0"] * 10 + ["7"] * 10)
+    if got_ != want_:
+        chk.violation(KEY_SIE_SEEKPUT, "sie: put ten 5s at 0; gd_seek(GD_SEEK_SET) to 20; put ten 7s at 20: the field reads back as '%s' (expected '%s'); a.sie = %s" % (
+            got_, want_, pay_.hex()), {"kind": "impl-vs-spec", "script": r_, "final": pay_.hex()})
     d_, r_, pay_, got_ = replay("w-bz2", "bzip2", "UINT32", ["put a 5 0 0 4 1 3 1 0", "flush a", "put a 5 0 1 1 ffffffff", "put a 5 0 9 1 80000000"], None, None, None, None)
     want_ = gdlib.enc_samples(5, "l", [1, 0xffffffff, 1, 0, 0, 0, 0, 0, 0, 0x80000000])
     if pay_ != want_:
